@@ -1,6 +1,6 @@
 /-
   XotModel.Lemmas.WriterXml — the XML Write entry point in front of a failing writer
-  (`serializeXmlWriteW`): it is its call trace replayed (`serializeXmlWriteW_eq_runCalls`), and the trace's
+  (`serializeXmlWriteW`): it is its call trace replayed (`serializeXmlWriteW_eq_replayCalls`), and the trace's
   calls concatenated / its end are the never-failing model of `XmlDecl.lean`
   (`serializeXmlCalls_eq`), so every theorem about `serializeXmlWriteWith` speaks about the
   unlimited-budget instance (`serializeXmlWriteW_unlimited`).
@@ -68,33 +68,33 @@ theorem DocType.calls_flatten (d : DocType) (name : Str) : (d.calls name).flatte
   cases d <;> simp
 
 /-- The threaded entry point is its trace replayed against the writer. -/
-theorem serializeXmlWriteW_eq_runCalls (P : WriterPolicy) (esc : Escapers) (env : Env) (p : XmlParams)
+theorem serializeXmlWriteW_eq_replayCalls (P : WriterPolicy) (esc : Escapers) (env : Env) (p : XmlParams)
     (t : Tree) (start : Path) :
-    serializeXmlWriteW P esc env p t start = runCalls P [] (serializeXmlCalls esc env p t start) := by
+    serializeXmlWriteW P esc env p t start = replayCalls P [] (serializeXmlCalls esc env p t start) := by
   unfold serializeXmlWriteW serializeXmlCalls
   cases hd : (doctypeBlockCalls env p t start).2 with
   | err e =>
-    simp only [runCalls]
+    simp only [replayCalls]
     cases writeCalls P [] p.declCalls <;> rfl
   | panic =>
-    simp only [runCalls]
+    simp only [replayCalls]
     cases writeCalls P [] p.declCalls <;> rfl
   | ok u =>
     cases u
     simp only [List.append_assoc]
-    rw [runCalls_append]
+    rw [replayCalls_append]
     cases h1 : writeCalls P [] p.declCalls with
     | error b => rfl
     | ok h1' =>
       simp only []
-      rw [runCalls_append]
+      rw [replayCalls_append]
       cases h2 : writeCalls P h1' (doctypeBlockCalls env p t start).1 with
       | error b => rfl
       | ok h2' =>
         simp only []
         cases p.indentation with
-        | none => simp only [writeGoW, writeGoCalls]; exact writeLoopW_eq_runCalls P _ _ _ _
-        | some sup => simp only [writePrettyGoW, writePrettyGoCalls]; exact writeLoopW_eq_runCalls P _ _ _ _
+        | none => simp only [writeGoW, writeGoCalls]; exact writeLoopW_eq_replayCalls P _ _ _ _
+        | some sup => simp only [writePrettyGoW, writePrettyGoCalls]; exact writeLoopW_eq_replayCalls P _ _ _ _
 
 theorem writeGoCalls_fst (esc : Escapers) (env : Env) (pr : TokenParams) (t : Tree) (s : FStack)
     (outs : List (Path × Output)) :
@@ -133,7 +133,7 @@ theorem serializeXmlCalls_eq (esc : Escapers) (env : Env) (p : XmlParams) (t : T
     threaded entry point is the never-failing model. -/
 theorem serializeXmlWriteW_unlimited (esc : Escapers) (env : Env) (p : XmlParams) (t : Tree) (start : Path) :
     serializeXmlWriteW WriterPolicy.unlimited esc env p t start = serializeXmlWriteWith esc env p t start := by
-  rw [serializeXmlWriteW_eq_runCalls, runCalls_unlimited, List.nil_append, serializeXmlCalls_eq]
+  rw [serializeXmlWriteW_eq_replayCalls, replayCalls_unlimited, List.nil_append, serializeXmlCalls_eq]
 
 /-- `Xot::write` (default parameters) threaded = the full entry point with default parameters. -/
 theorem serializeXmlWriteW_default (P : WriterPolicy) (esc : Escapers) (env : Env) (t : Tree) (start : Path) :
